@@ -14,7 +14,7 @@ func init() {
 	register(&Property{
 		ID: "C18",
 		Explanation: `R18.1 in drip.(*Writer).Write and Close every forward to the underlying writer is preceded, on every path where a validator is set, by a call of dw.Validate on the same slice, and a non-nil verdict cannot reach the forward; ` +
-			`R18.2 in ValidatingPool.GetWriter's validate closure the block index is incremented on every path (both modes) and in wound mode the verdict is sent before returning; ` +
+			`R18.2 in ValidatingPool.GetWriter's validate closure the block index is incremented once on every accepting path, never on a path that returns the rejection (the drip writer offers a rejected block again when closed: it must meet the same signed block), and in wound mode the verdict is sent before returning; ` +
 			`R18.5 what is forwarded is the drip buffer itself, other data only under dw.offset == 0; R18.3 the relay goroutine is joined before the file writer closes (shared with R16.4); R18.4 the drip buffer, the safekeeper buffer and the block validator's hashing context all use pwr.BlockSize. ` +
 			`R05.4 (shared) the aggregation goroutine keeps, merges or forwards every incoming wound. ` +
 			`R18.7 what ComputeHashInfo stores as a file's group is a slice of the hash list whose high bound is computed from ComputeNumBlocks. NOT decided: that wounds tile the written range in offset order, slicing independence (index arithmetic in drip.Write), block-aligned-prefix pass-through.`,
@@ -73,7 +73,7 @@ func nilTestEdge(field string, wantNil bool) func(b, s *ssa.BasicBlock) bool {
 
 func runC18(c *core.Ctx) {
 	c.Rule("R18.1", "drip writer validates a block before forwarding it, and never forwards after a non-nil verdict")
-	c.Rule("R18.2", "validate closure: block index advances once on every path; wound verdict is sent")
+	c.Rule("R18.2", "validate closure: block index advances once for an accepted block and not for a rejected one; wound verdict is sent")
 	c.Rule("R18.3", "relay goroutine joined before close (shared with R16.4)")
 	c.Rule("R18.5", "only the drip buffer is forwarded, or other data when nothing is pending")
 	c.Rule("R18.4", "drip buffer / safekeeper buffer / validator hashing context are one pwr.BlockSize block")
@@ -300,20 +300,50 @@ func runC18(c *core.Ctx) {
 			if idxCell == nil {
 				c.Missing("R18.2", core.FnName(lit), "block index variable passed to the block validator not found")
 			} else {
-				p := core.FindPath(lit, nil, isReturn, isInc)
-				o := c.Check(p == nil, "R18.2", core.FnName(lit), "blockIndex++ on every path", lit.Pos(),
-					"every path through the validate closure increments the block index",
-					"a path through the validate closure does not advance the block index: the next drip is compared with the wrong signature block")
-				o.Path = c.P.PathStrings(p)
-				// exactly once
+				// an accepted block advances the index, once; a rejected one leaves it where it is - the drip writer
+				// keeps a rejected block and offers it again when it is closed, and it must then meet the same signed
+				// block, not the next one (a block equal to the next signed block would pass and reach the pool)
+				succ := map[ssa.Instruction]bool{}
+				for _, rs := range successReturns(lit) {
+					succ[rs.Ret] = true
+					p := core.FindPath(lit, nil, isInstr(rs.Ret), isInc)
+					o := c.Check(p == nil, "R18.2", core.FnName(lit), "blockIndex++ on every accepting path", core.InstrPos(rs.Ret),
+						"every path to a nil verdict increments the block index",
+						"a path through the validate closure accepts a block without advancing the block index: the next drip is compared with the wrong signature block")
+					o.Path = c.P.PathStrings(p)
+				}
 				ob, _ := pathEventBounds(lit, func(in ssa.Instruction) int {
 					if isInc(in) {
 						return 1
 					}
 					return 0
 				}, 0)
-				c.Check(ob.min == 1 && ob.max == 1, "R18.2", core.FnName(lit), "blockIndex++ exactly once per drip", lit.Pos(),
-					"once ("+fmtBounds(ob)+")", "the block index does not advance exactly once per validated drip ("+fmtBounds(ob)+")")
+				c.Check(ob.max <= 1, "R18.2", core.FnName(lit), "blockIndex++ at most once per drip", lit.Pos(),
+					"at most once ("+fmtBounds(ob)+")", "the block index can advance more than once per validated drip ("+fmtBounds(ob)+")")
+				for _, rs := range core.Returns(lit, -1) {
+					if rs.Val == nil || core.IsNilConst(rs.Val) {
+						continue
+					}
+					if np, known := core.MayBeNil(rs.Val); known && np && len(core.Origins(rs.Val)) == 1 {
+						continue
+					}
+					// can carry a rejection: no increment on any path on which it does
+					var bad []ssa.Instruction
+					for _, inc := range allInstrs(lit, isInc) {
+						for _, v := range allInstrs(lit, isValErr) {
+							vc := v.(*ssa.Call)
+							// a path validation -> increment -> this return that is not behind the nil outcome of the verdict
+							if p1 := ungatedPath(lit, vc, inc, nil); p1 != nil && isResultOf(rs.Val, vc) {
+								if p2 := core.FindPath(lit, inc, isInstr(rs.Ret), nil); p2 != nil {
+									bad = append(p1, p2...)
+								}
+							}
+						}
+					}
+					c.Check(bad == nil, "R18.2", core.FnName(lit), "a rejected block does not advance the index", core.InstrPos(rs.Ret),
+						"the increment is reached only through the nil outcome of ValidateAsError",
+						"the block index advances although the block was rejected: the drip writer still holds the rejected block and validates it again when it is closed - against the NEXT signed block; if it equals that one (the writer skipped a block, say) Close succeeds and the rejected block reaches the underlying pool").Path = c.P.PathStrings(bad)
+				}
 				// the index read by the validation call precedes the increment
 				for _, in := range allInstrs(lit, anyOf(isValErr, isValWound)) {
 					inc := firstInstr(lit, isInc)
